@@ -262,12 +262,7 @@ Qed.
 Lemma ci0 custom : CI custom (cst0 custom) None 0.
 Proof. unfold CI, cst0, get_cur, a0_of; simpl. auto. Qed.
 
-Theorem run_meets_spec : forall s, valid s = true -> spec s (run s) = true.
-Proof.
-  intros [ops|custom cops] Hv; simpl in *.
-  - apply run_check; [apply inv0|exact Hv].
-  - apply crun_check; [apply ci0|exact Hv].
-Qed.
+(* run_meets_spec (all three scenario kinds) is at the end of C15_Release.v *)
 
 (* ------------------------------------------------------------------ Prop-level readings *)
 Lemma ares_eqb_eq a b : ares_eqb a b = true -> a = b.
@@ -304,7 +299,7 @@ Proof.
     + destruct obs as [|it obs']; [discriminate H|]. apply andb_prop in H. destruct H as [Hi Hc].
       destruct it; try discriminate Hi. simpl. apply IH; exact Hc.
     + destruct obs as [|it obs']; [discriminate H|]. apply andb_prop in H. destruct H as [Hi Hc].
-      destruct it as [| rep |]; try discriminate Hi. simpl. destruct rep as [rp|].
+      destruct it as [? | rep | ? | ? ? | ? ? ? | ? ? | ? ?]; try discriminate Hi. simpl. destruct rep as [rp|].
       * apply existsb_weaken in Hi. rewrite Hi. f_equal. apply IH; exact Hc.
       * apply negb_true_iff in Hi. rewrite Hi. f_equal. apply IH; exact Hc.
 Qed.
